@@ -105,6 +105,13 @@ def dispatch (f : String) (j : Json) : Option Json :=
   | "C08.fixwith" => some <| Id.run do
       let some k := getStr j "kind" | return Json.mkObj [("err", "bad kind")]
       return Json.bool (Pfst.SharedDelims.fixWithItems k)
+  | "C08.annsimple" => some <| Id.run do
+      -- batch of [targetIsName, npars] → simple
+      let some a := getArr j "items" | return Json.mkObj [("err", "bad items")]
+      let some items := a.toList.mapM asNats | return Json.mkObj [("err", "bad item")]
+      return Json.arr (items.map (fun it => match it with
+        | [n, p] => ofNat (Pfst.SharedDelims.annSimple (n != 0) p)
+        | _ => Json.null)).toArray
   | "C08.elif" => some <| Id.run do
       -- batch of [hasPre, hasPost, isOrelse, tgtIsIf, optElif, oldIsElif, putLen, putFirstIsIf] → 0 keep / 1 toElif / 2 toElse
       let some a := getArr j "items" | return Json.mkObj [("err", "bad items")]
